@@ -123,22 +123,26 @@ fn run<const D: usize>(case: &Case, log: &mut CaseLog) {
                 ok
             };
             log.class(if distinct { "degenerate_flat" } else { "degenerate_repeated_point" });
-            let mut chk = |name: &str, r: Result<String, String>, log: &mut CaseLog| {
+            // scale of the simplex: a returned value far below scale^D * 1e-6 is rounding noise of an
+            // (exactly) zero determinant, a value at or above the scale is outright garbage
+            let scale = pts.iter().flatten().fold(0.0f64, |m, x| m.max(x.abs())).max(1e-300);
+            let mut chk = |name: &str, r: Result<(String, f64), String>, power: i32, log: &mut CaseLog| {
                 log.evals += 1;
-                if let Ok(v) = r {
+                if let Ok((v, mag)) = r {
                     log.violate(
                         Violation::new(ID, "degenerate_not_rejected", name, format!("{name} returned Ok({v}) for the exactly degenerate simplex {desc}"))
                             .fact("dim", D as u64)
+                            .fact("rounding_noise", mag.abs() < 1e-6 * scale.powi(power))
                             .fact("repeated_point", !distinct),
                     );
                 }
             };
-            chk("simplex_volume", simplex_volume(&lp).map(|v| format!("{v:e}")).map_err(|e| e.to_string()), log);
+            chk("simplex_volume", simplex_volume(&lp).map(|v| (format!("{v:e}"), v)).map_err(|e| e.to_string()), D as i32, log);
             if D >= 2 {
-                chk("inradius", inradius(&lp).map(|v| format!("{v:e}")).map_err(|e| e.to_string()), log);
+                chk("inradius", inradius(&lp).map(|v| (format!("{v:e}"), v)).map_err(|e| e.to_string()), 1, log);
             }
-            chk("circumcenter", circumcenter(&lp).map(|v| format!("{:?}", v.coords())).map_err(|e| e.to_string()), log);
-            chk("circumradius", circumradius(&lp).map(|v| format!("{v:e}")).map_err(|e| e.to_string()), log);
+            chk("circumcenter", circumcenter(&lp).map(|v| (format!("{:?}", v.coords()), v.coords().iter().fold(0.0f64, |m, x| m.max(x.abs())))).map_err(|e| e.to_string()), 1, log);
+            chk("circumradius", circumradius(&lp).map(|v| (format!("{v:e}"), v)).map_err(|e| e.to_string()), 1, log);
             return;
         }
         Some(ex) => {
